@@ -343,6 +343,7 @@ Theorem C02_source_tie :
    gen_lookup_calls_in_dial = 1%nat /\ lookup_steps gen_dial_steps = 1%nat) /\
   list_eqb host_step_eqb gen_host_steps deployed_host_steps = true /\
   gen_endpoint_lookup = RegExactIndex /\
+  gen_server_config_copied = true /\
   reject_before_dialb = true /\
   list_eqb String.eqb gen_host_conn_calls deployed_host_conn_calls = true /\
   (gen_lock_violations = [] /\
@@ -350,9 +351,9 @@ Theorem C02_source_tie :
   RouteGen.src_diff gen_route_src frozen_route_src = [].
 Proof.
   exact (conj gen_rejected_steps_eq (conj gen_suffixes_eq (conj gen_dial_steps_deployed
-          (conj gen_dial_lookup_err_guarded (conj gen_lookup_store_direct (conj gen_host_steps_deployed (conj gen_endpoint_lookup_exact
+          (conj gen_dial_lookup_err_guarded (conj gen_lookup_store_direct (conj gen_host_steps_deployed (conj gen_endpoint_lookup_exact (conj gen_server_config_is_copied
           (conj gen_reject_before_dial (conj gen_host_conn_calls_deployed
-            (conj gen_lock_skeleton gen_route_src_frozen)))))))))).
+            (conj gen_lock_skeleton gen_route_src_frozen))))))))))).
 Qed.
 Print Assumptions C02_source_tie.
 
